@@ -120,7 +120,44 @@ func (ms *MapScen) name() string {
 }
 
 // build the container and run the sequential prologue (pass-through mode)
-func (ms *MapScen) setup() (MapLike, MState) {
+// setup builds the container and runs the sequential prologue. nfill is the number of bystander keys
+// left in the container; problem is non-empty if the prologue itself already misbehaved.
+func (ms *MapScen) setup() (m MapLike, st MState, nfill int, problem string, infra bool) {
+	m, st, infra, problem = ms.setup0()
+	if problem != "" {
+		return
+	}
+	present := 0
+	for k := 0; k < ms.NKeys; k++ {
+		if st[k] != 0 {
+			present++
+		}
+	}
+	s := m.Stats()
+	nfill = s.Size - present
+	if m.Size() != s.Size || s.Counter != s.Size {
+		problem = fmt.Sprintf("sequential prologue: Size=%d, counter=%d, physical entries=%d", m.Size(), s.Counter, s.Size)
+	}
+	return
+}
+
+func (ms *MapScen) setup0() (m MapLike, st MState, infra bool, problem string) {
+	defer func() {
+		if r := recover(); r != nil {
+			// the intended table shape could not be produced; decide below whether the counters are to blame
+			s := m.Stats()
+			if m.Size() != s.Size || s.Counter != s.Size {
+				problem = fmt.Sprintf("sequential prologue: Size=%d, counter=%d, physical entries=%d (%v)", m.Size(), s.Counter, s.Size, r)
+			} else {
+				problem, infra = fmt.Sprintf("scenario cannot be armed: %v", r), true
+			}
+		}
+	}()
+	m, st = ms.setupRaw()
+	return
+}
+
+func (ms *MapScen) setupRaw() (MapLike, MState) {
 	l := layoutFor(ms.Rel)
 	m := newContainer(ms.C, l)
 	slots := ms.C.slots()
@@ -211,7 +248,11 @@ func (ms *MapScen) setup() (MapLike, MState) {
 		for j := 0; j <= slots; j++ {
 			m.Delete(fillTarget + j)
 		}
-		for j := n - 1; j >= anchors; j-- {
+		// the anchors that stay are fillers living in the upper half of the 64-bucket table: the shrink moves them
+		for j := n - 1; j >= 0; j-- {
+			if j >= 31 && j < 31+anchors {
+				continue
+			}
 			m.Delete(fillSpread + j)
 		}
 		if s := m.Stats(); s.TotalShrinks != 0 || s.RootBuckets != 64 {
@@ -222,10 +263,24 @@ func (ms *MapScen) setup() (MapLike, MState) {
 }
 
 type rangeOut struct {
-	Pairs [][2]int
+	Pairs   [][2]int
+	Fillers int  // bystander keys visited
+	FDup    bool // a bystander key was visited twice or with a wrong value
 }
 
-func (r rangeOut) String() string { return fmt.Sprint(r.Pairs) }
+func (r rangeOut) String() string {
+	if r.FDup {
+		return fmt.Sprint(r.Pairs, " +", r.Fillers, " bystanders (DUPLICATE/WRONG)")
+	}
+	return fmt.Sprint(r.Pairs, " +", r.Fillers, " bystanders")
+}
+
+func fillerValue(k int) int {
+	if k >= fillSpread {
+		return 2000 + k - fillSpread
+	}
+	return 1000 + k - fillTarget
+}
 
 // Scenario converts the description into an explorable scenario.
 func (ms *MapScen) Scenario() *Scenario {
@@ -234,7 +289,19 @@ func (ms *MapScen) Scenario() *Scenario {
 	sc := &Scenario{Name: name, Prop: ms.Prop, NoBlock: ms.NoBlock, MaxSteps: ms.MaxSteps, PreemptBound: ms.Bound, MaxStates: ms.MaxStates,
 		Classes: ms.Classes, ExpectOutcomes: ms.Expect}
 	sc.New = func() *Instance {
-		m, st0 := ms.setup()
+		m, st0, nfill, problem, infra := ms.setup()
+		if problem != "" {
+			cls := OCount
+			if infra {
+				cls = 0
+			}
+			return &Instance{Bodies: []sched.Body{func() {}}, Finish: func(*sched.Result) (string, []OViol) {
+				if infra {
+					panic("INFRASTRUCTURE: " + problem + " @ " + name)
+				}
+				return "prologue", []OViol{{cls, problem}}
+			}}
+		}
 		hist := make([][]HOp, len(ms.Threads))
 		inst := &Instance{}
 		for t := range ms.Threads {
@@ -248,6 +315,7 @@ func (ms *MapScen) Scenario() *Scenario {
 					call := int64(sched.Invoke())
 					var nested []HOp
 					out := execMapOp(m, in, ms.VisitorOp, t, &nested)
+					_ = nfill
 					ret := int64(sched.Return())
 					if len(nested) > 0 {
 						// a traversal that mutates from its visitor is recorded as the
@@ -277,7 +345,8 @@ func (ms *MapScen) Scenario() *Scenario {
 			// quiescent epilogue under the scheduler (single thread): a leaked lock or a
 			// resize flag left set shows up as a deadlock instead of hanging the harness.
 			var epi []HOp
-			var size, visits int
+			var size, visits, fillersSeen int
+			var fillerBad bool
 			var rangePairs [][2]int
 			var stats = struct {
 				G, S                 int64
@@ -290,13 +359,20 @@ func (ms *MapScen) Scenario() *Scenario {
 					ts += 2
 				}
 				size = m.Size()
+				fseen := map[int]bool{}
 				m.Range(func(k, v int) bool {
 					visits++
 					if k < fillTarget {
 						rangePairs = append(rangePairs, [2]int{k, v})
+					} else {
+						if fseen[k] || v != fillerValue(k) {
+							fillerBad = true
+						}
+						fseen[k] = true
 					}
 					return true
 				})
+				fillersSeen = len(fseen)
 				s := m.Stats()
 				stats.G, stats.S, stats.Phys, stats.Counter, stats.Roots = s.TotalGrowths, s.TotalShrinks, s.Size, s.Counter, s.RootBuckets
 				// write probe: every scenario key's bucket can still be locked and released
@@ -375,6 +451,21 @@ func (ms *MapScen) Scenario() *Scenario {
 			if !lc.Check(append(pre, lin...)) {
 				viols = append(viols, OViol{OLin, "history is not linearizable w.r.t. map semantics"})
 			}
+			// bystander keys (never touched by any thread) must all still be there, once, with their values
+			hasClear := false
+			for _, o := range all {
+				if in, ok := o.In.(MIn); ok && in.Op == MClear {
+					hasClear = true
+				}
+			}
+			if !hasClear && (fillersSeen != nfill || fillerBad) {
+				viols = append(viols, OViol{OLin | ORange, fmt.Sprintf("bystander keys lost, duplicated or changed: %d of %d present (bad=%v)", fillersSeen, nfill, fillerBad)})
+			}
+			for _, o := range all {
+				if ro, ok := o.Out.(rangeOut); ok && !hasClear && (ro.Fillers != nfill || ro.FDup) {
+					viols = append(viols, OViol{ORange, fmt.Sprintf("a traversal visited %d of %d untouched keys (duplicate/wrong=%v)", ro.Fillers, nfill, ro.FDup)})
+				}
+			}
 			// (2) quiescent agreement of Size, Range and the physical entry count
 			if size != visits || size != stats.Phys || size != stats.Counter {
 				viols = append(viols, OViol{OCount, fmt.Sprintf("quiescent Size=%d, Range visits=%d, physical entries=%d, counter=%d", size, visits, stats.Phys, stats.Counter)})
@@ -443,9 +534,19 @@ func execMapOp(m MapLike, in MIn, visitorOp *MIn, t int, nested *[]HOp) interfac
 	case MRange:
 		var ro rangeOut
 		did := false
+		var fs map[int]bool
 		m.Range(func(k, v int) bool {
 			if k < fillTarget {
 				ro.Pairs = append(ro.Pairs, [2]int{k, v})
+			} else {
+				if fs == nil {
+					fs = map[int]bool{}
+				}
+				if fs[k] || v != fillerValue(k) {
+					ro.FDup = true
+				}
+				fs[k] = true
+				ro.Fillers = len(fs)
 			}
 			if visitorOp != nil && !did && k < fillTarget {
 				did = true
